@@ -196,13 +196,16 @@ def oracle(case, out):
             if m["grids"] and m["hw"] == 0.0 and (not inside or any(m["expand"])):
                 # same root cause for bins added by expandBoundaries: the buffer is 3*floor(hill_width)+1 = 1 bin
                 sig = "gaussianSigmas: off-grid energy omits hills farther than one bin from the boundary"
-            if m["grids"] and m["wt"] and m["gf"] != m["freq"]:
-                sig = "well-tempered with gridsUpdateFrequency > newHillFrequency: scaling ignores hills not yet tabulated"
             viol.append((sig, "step %d (%s): metadynamics energy %r, the sum of the hills deposited on schedule gives %r" % (it, where, e[0], e_exp)))
             return viol
         for i in range(nd):
             fa = vals(out, ln + 2 + i, "fa")
             if fa is None or abs(fa[0] - f_exp[i]) > 2e-5 * scale / m["sig"][i] + 1e-9:
-                viol.append("step %d: metadynamics force on variable %d is %r, minus the gradient of the hill sum gives %r" % (it, i, fa, f_exp[i]))
+                sig = None
+                if m["grids"] and m["hw"] == 0.0 and (not inside or any(m["expand"])):
+                    # the listed finding shows in the force as well as in the energy
+                    sig = "gaussianSigmas: off-grid energy omits hills farther than one bin from the boundary"
+                viol.append((sig, "step %d (%s): metadynamics force on variable %d is %r, minus the gradient of the hill sum gives %r"
+                             % (it, "inside the grid" if inside else "outside the grid", i, fa, f_exp[i])))
                 return viol
     return viol
